@@ -15,8 +15,8 @@ def checkC04 (l : Line) : Verdict := Id.run do
   if l.outS "ram" != l.outS "n_ram" then return .specDiff "RAM digests (every 64 steps and final) differ between the two execution modes"
   if l.outS "fb" != l.outS "n_fb" then return .specDiff "frame buffer differs between the two execution modes"
   if l.outS "ser" != l.outS "n_ser" then return .specDiff s!"serial output differs: recompiler={l.outS "ser"} interpreter={l.outS "n_ser"}"
-  -- non-trivial: the program visited many distinct PCs
+  -- non-trivial: the program visited more than ten distinct block entry points
   let ips := sj.map fun s => (s.splitOn ",").headD ""
-  return .ok ((ips.eraseDups).length > 20)
+  return .ok ((ips.eraseDups).length > 10)
 
 end Driver
